@@ -27,6 +27,8 @@ def kernel_pack(fams, flavours, which=None):
         _r('INIT', dp.init, flavours, fams, which),
         _r('ENTRY-PASS', dp.entry_pass, flavours, fams, which),
         _r('CONF', dp.conf_ro, flavours, fams, which),
+        _r('SET', dp.set_rules, flavours, fams),
+        _r('ENTRY-ALL', dp.entry_all, flavours, fams),
         _r('FRAME', re_.frame, flavours, r'(^|<)node::algo::(%s)::' % '|'.join(f.lower() for f in fams), 'a search / ordering (kernels, entry points, builders)'),
     ]
     return pack
@@ -81,10 +83,11 @@ PROPS['C03'] = dict(
 )
 PROPS['C20'] = dict(
     rules=[_r('IT1', rg.it1, FLAVOURS), _r('IT2', rg.it2, FLAVOURS), _r('IT3', rg.it3, FLAVOURS), _r('G2', rg.g2, FLAVOURS), _r('G3', rg.g3, FLAVOURS),
-           _r('ROLES', rk.roles, ALLF, FLAVOURS), _r('TERM', rk.term, ALLF, FLAVOURS), _r('DISC', rk.disc, ALLF, FLAVOURS, only=('DISC-vii',))],
+           _r('ROLES', rk.roles, ALLF, FLAVOURS), _r('TERM', rk.term, ALLF, FLAVOURS), _r('DISC', rk.disc, ALLF, FLAVOURS, only=('DISC-vii',)),
+           _r('ADJ-PRIM', re_.adj_prim, FLAVOURS), _r('GET-ADJ', re_.get_adj, UNDIRECTED)],
     explanation='A guard-lifetime statement: no iterator/builder type stores a guard (IT1); each node-iterator step takes one shared guard, reads the live entry at its position and '
                 'releases (IT2); no guard is held where a user callback runs or where an iterator is advanced, in all 48 kernels, isolate, scc, DOT and serde writers (G2); no conflicting '
-                're-acquisition anywhere (G3). Termination clause: nodes enter a frontier only when newly marked (TERM); edges are walked live from the node iterator, not from a snapshot (DISC-vii).',
+                're-acquisition anywhere (G3). Termination clause: nodes enter a frontier only when newly marked (TERM); edges are walked live from the node iterator, not from a snapshot (DISC-vii). The positional read primitives the iterators step with are `list.get(i)` -- None, not a panic, when the cursor is beyond a list that shrank (ADJ-PRIM, GET-ADJ).',
     decides='which guards are live at every call site of every function (forward dataflow on MIR with function summaries)',
     does_not_decide='re-entrancy through payload trait impls that run under a guard in next()/find_* (E::clone, K::eq), assumed not to call back into the graph',
     assumptions=STD,
@@ -92,7 +95,7 @@ PROPS['C20'] = dict(
 PROPS['C04'] = dict(
     rules=kernel_pack(('Bfs',), FLAVOURS, 'path') + [_r('RESMAP', dp.result_map, FLAVOURS, ('Bfs',), 'path'), _r('TR1', dp.tr1, DIRECTED, ('Bfs',), 'path'), _r('METHOD', rk.method, FLAVOURS), _r('BT', rb.bt, FLAVOURS, only=BT5), _r('PATH', rb.path_api, FLAVOURS), _r('PATH-hint', rb.path_hint, FLAVOURS)],
     explanation='Breadth-first kernels (12) and their entry points: FIFO frontier (BFS1), discovery discipline (DISC i-vii), exhaustive expansion (EXH), '
-                'callback-first (EXEC1), orientation (TR0/TR1), seeding (INIT), result mapping (RESMAP), back-tracking (BT) decided on MIR by dominance and provenance. Entry points only read the search configuration (CONF) and answer through a kernel run or a shortcut that is sound for every arm (ENTRY-PASS).',
+                'callback-first (EXEC1), orientation (TR0/TR1), seeding (INIT), result mapping (RESMAP), back-tracking (BT) decided on MIR by dominance and provenance. Entry points only read the search configuration (CONF) and answer through a kernel run or a shortcut that is sound for every arm (ENTRY-PASS). No search, ordering or SCC function reaches an adjacency-list mutator through the call graph (FRAME): a search computes on the graph the caller holds.',
     decides='the structural premises of the textbook BFS argument on every path of every kernel and entry point',
     does_not_decide='the textbook step from (FIFO + mark-on-discovery + exhaustive expansion + back-tracking join) to "shortest path iff reachable"; VecDeque/HashSet semantics',
     assumptions=['std VecDeque/HashSet/Vec behave as documented', 'payload trait impls (K: Eq+Hash, E: Clone) are pure'],
@@ -101,7 +104,7 @@ PROPS['C04'] = dict(
 PROPS['C05'] = dict(
     rules=kernel_pack(('Dfs',), FLAVOURS, 'path') + [_r('RESMAP', dp.result_map, FLAVOURS, ('Dfs',), 'path'), _r('TR1', dp.tr1, DIRECTED, ('Dfs',), 'path'), _r('METHOD', rk.method, FLAVOURS), _r('BT', rb.bt, FLAVOURS, only=BT5), _r('PATH', rb.path_api, FLAVOURS), _r('PATH-hint', rb.path_hint, FLAVOURS)],
     explanation='Depth-first kernels (12 recursive) and entries: LIFO frontier with push(FAR) immediately followed by the recursive call (DFS1), discovery discipline (DISC), no early exit and '
-                'found-propagation (EXH), callback-first (EXEC1), orientation, seeding, result mapping and back-tracking (BT). Entry points only read the search configuration (CONF) and answer through a kernel run or a sound shortcut (ENTRY-PASS); FOUND behind a descent is confined to its success outcome (EXH).',
+                'found-propagation (EXH), callback-first (EXEC1), orientation, seeding, result mapping and back-tracking (BT). Entry points only read the search configuration (CONF) and answer through a kernel run or a sound shortcut (ENTRY-PASS); FOUND behind a descent is confined to its success outcome (EXH). No search, ordering or SCC function reaches an adjacency-list mutator through the call graph (FRAME): a search computes on the graph the caller holds.',
     decides='the structural premises of "DFS finds a simple path iff reachable" on every path of every kernel',
     does_not_decide='the textbook step from those premises to the graph-theoretic statement',
     assumptions=STD,
@@ -110,18 +113,18 @@ PROPS['C06'] = dict(
     rules=kernel_pack(('Pfs',), FLAVOURS, 'path') + [_r('PFS1', dp.pfs1, FLAVOURS, 'path'), _r('RESMAP', dp.result_map, FLAVOURS, ('Pfs',), 'path'), _r('TR1', dp.tr1, DIRECTED, ('Pfs',), 'path'),
                                            _r('METHOD', rk.method, FLAVOURS), _r('BT', rb.bt, FLAVOURS, only=BT5), _r('PATH', rb.path_api, FLAVOURS), _r('PATH-hint', rb.path_hint, FLAVOURS), _r('ORD-NODE', rm.ord_node, FLAVOURS), _r('PFS-SEARCH', rm.pfs_search, FLAVOURS), _r('OPT', dp.opt_rules, FLAVOURS, 'priority')],
     explanation='Priority-first kernels (12) and entries: BinaryHeap pop/push with Reverse exactly on the Min arms (PFS-FRONT, PFS1), discovery discipline incl. closing edge recorded before '
-                'FOUND (DISC iv/v), no early exit, node ordering by value identically through Ord and PartialOrd and equality by key (ORD-NODE), search = last node of search_path. min()/max() store the priority their name says (OPT); kernels and entries only read the configuration (CONF).',
+                'FOUND (DISC iv/v), no early exit, node ordering by value identically through Ord and PartialOrd and equality by key (ORD-NODE), search = last node of search_path. min()/max() store the priority their name says (OPT); kernels and entries only read the configuration (CONF). No search, ordering or SCC function reaches an adjacency-list mutator through the call graph (FRAME): a search computes on the graph the caller holds.',
     decides='heap discipline, Min/Max dispatch, comparison impls, discovery discipline',
     does_not_decide='BinaryHeap pop-minimum contract (trusted std); ties',
     assumptions=STD,
 )
 PROPS['C07'] = dict(
     rules=[_r('ROLES', rk.roles, ALLF, FLAVOURS), _r('EXEC1', rk.exec1, ALLF, FLAVOURS), _r('DISC', rk.disc, ALLF, FLAVOURS, only=DISC6), _r('EXH', rk.exh, ALLF, FLAVOURS),
-           _r('TR0', rk.tr0, ALLF, FLAVOURS), _r('INIT', dp.init, FLAVOURS), _r('ENTRY-PASS', dp.entry_pass, FLAVOURS), _r('CONF', dp.conf_ro, FLAVOURS), _r('METHOD', rk.method, FLAVOURS), _r('REV', rm.rev, FLAVOURS), _r('IT2', rg.it2, FLAVOURS), _r('ORIENT', re_.orient, FLAVOURS),
+           _r('TR0', rk.tr0, ALLF, FLAVOURS), _r('INIT', dp.init, FLAVOURS), _r('ENTRY-PASS', dp.entry_pass, FLAVOURS), _r('CONF', dp.conf_ro, FLAVOURS), _r('SET', dp.set_rules, FLAVOURS), _r('ENTRY-ALL', dp.entry_all, FLAVOURS), _r('METHOD', rk.method, FLAVOURS), _r('REV', rm.rev, FLAVOURS), _r('IT2', rg.it2, FLAVOURS), _r('ORIENT', re_.orient, FLAVOURS),
            _r('FRAME', re_.frame, FLAVOURS, r'(^|<)node::algo::', 'a traversal (kernels, entry points, callbacks dispatch, paths)')],
     explanation='All 48 kernels: the callback runs first and exactly once per yielded edge (EXEC1), a rejected edge neither marks, records nor extends reachability (DISC i), the edge handed '
                 'over is the live iterator item or its value-preserving reverse (DISC vi/vii, REV, IT2), every reachable node is expanded once and completely (EXH, DISC ii/iii, INIT), '
-                'and the dispatcher maps Empty/ForEach/Filter correctly (METHOD). The ForEach/Filter callback call is on every path of its dispatcher arm (METHOD); entries answer through a kernel run (ENTRY-PASS).',
+                'and the dispatcher maps Empty/ForEach/Filter correctly (METHOD). The ForEach/Filter callback call is on every path of its dispatcher arm (METHOD); entries answer through a kernel run (ENTRY-PASS). No search, ordering or SCC function reaches an adjacency-list mutator through the call graph (FRAME): a search computes on the graph the caller holds.',
     decides='callback position/multiplicity and filter semantics on every path',
     does_not_decide='the step to "every reachable edge exactly once" (textbook, from the premises)',
     assumptions=STD,
@@ -140,7 +143,7 @@ PROPS['C08'] = dict(
 PROPS['C09'] = dict(
     rules=kernel_pack(('Bfs', 'Dfs', 'Pfs'), FLAVOURS, 'cycle') + [_r('RESMAP', dp.result_map, FLAVOURS, ('Bfs', 'Dfs', 'Pfs'), 'cycle'), _r('TR1', dp.tr1, DIRECTED, ('Bfs', 'Dfs', 'Pfs'), 'cycle'), _r('PFS1', dp.pfs1, FLAVOURS, 'cycle'), _r('BT', rb.bt, FLAVOURS), _r('PATH', rb.path_api, FLAVOURS), _r('PATH-hint', rb.path_hint, FLAVOURS)],
     explanation='12 cycle entries: target := key(root), root queued and not marked so that it can be re-discovered (CYC-INIT), then the same kernels (DISC/EXH/FRONT), transposed arms (TR1), '
-                'and back-tracking incl. BT-disjoint (the closing edge is not joined to itself).',
+                'and back-tracking incl. BT-disjoint (the closing edge is not joined to itself). No search, ordering or SCC function reaches an adjacency-list mutator through the call graph (FRAME): a search computes on the graph the caller holds. Overridden provided methods of the Path iterators cannot underflow for any cursor value next() produces (PATH-hint).',
     decides='seeding of cycle searches, kernel discipline, back-tracking join and range',
     does_not_decide='the textbook step to "a cycle through the root iff one exists"',
     assumptions=STD,
@@ -148,18 +151,19 @@ PROPS['C09'] = dict(
 PROPS['C10'] = dict(
     rules=kernel_pack(('Order',), FLAVOURS) + [_r('ORD1', rk.ord1, FLAVOURS), _r('ORD2', rm.ord2, FLAVOURS), _r('ORD2d', rm.ord2_derived, FLAVOURS), _r('TR1', dp.tr1, DIRECTED, ('Order',)), _r('TR2', dp.tr2, DIRECTED), _r('OPT', dp.opt_rules, FLAVOURS, 'ordering'), _r('METHOD', rk.method, FLAVOURS)],
     explanation='12 ordering kernels and 8 entries: emission before the recursive call in kernels selected by the Pre arm and after it in kernels selected by the Post arm (ORD1), assembly '
-                'root-first / root-last with node list = targets of the recorded edges (ORD2), one entering edge per reachable non-root node (DISC), LIFO descent (DFS1), no early exit (EXH). preorder()/postorder() build an Order with the ordering their name says (OPT).',
+                'root-first / root-last with node list = targets of the recorded edges (ORD2), one entering edge per reachable non-root node (DISC), LIFO descent (DFS1), no early exit (EXH). preorder()/postorder() build an Order with the ordering their name says (OPT). No search, ordering or SCC function reaches an adjacency-list mutator through the call graph (FRAME): a search computes on the graph the caller holds.',
     decides='emission position, assembly and discovery discipline of the ordering kernels',
     does_not_decide='that ORD1+DFS1 yield a DFS discovery / finishing order (textbook)',
     assumptions=STD,
 )
 
 PROPS['C17'] = dict(
-    rules=[_r('LK1', rg.g3, SYNC, strict=True), _r('LK2', rg.g2, SYNC, rule='LK2'), _r('LK3', rg.lk3, SYNC), _r('LK4', rg.lk4, SYNC), _r('LK5', rg.lk5, SYNC), _r('LK-TRY', rg.lk_try, SYNC), _r('IT2', rg.it2, SYNC), _r('IT1', rg.it1, SYNC), _r('IT3', rg.it3, SYNC)],
+    rules=[_r('LK1', rg.g3, SYNC, strict=True), _r('LK2', rg.g2, SYNC, rule='LK2'), _r('LK3', rg.lk3, SYNC), _r('LK4', rg.lk4, SYNC), _r('LK5', rg.lk5, SYNC), _r('LK-TRY', rg.lk_try, SYNC), _r('IT2', rg.it2, SYNC), _r('IT1', rg.it1, SYNC), _r('IT3', rg.it3, SYNC),
+           _r('P2', re_.p2_disconnect_directed, ('sync_digraph',)), _r('P2u', re_.p2_disconnect_undirected, ('sync_ungraph',)), _r('P1', re_.p1_connect, SYNC), _r('P3', re_.p3_isolate, SYNC)],
     explanation='Only the lock-discipline clauses are decidable statically: no node lock is acquired while another node-lock guard is held, directly or through any callee (LK1: with '
                 'per-node locks and no lock order this is necessary against ABBA and re-entrant read-behind-writer deadlocks, and with LK2 sufficient for deadlock freedom among gdsl\'s '
                 'own locks); no user callback or iterator step runs under a lock (LK2); no panic-capable call under a write guard (LK3: poisoning); every public mutator is one critical '
-                'section, otherwise it is reported with the multiset of its sections (LK4: a necessary condition of serialisability). Iterators lock once per step (IT1/IT2). No index computed under one acquisition is used under another (LK5); no try_read/try_write/try_lock whose failure becomes a data outcome (LK-TRY). The cursor of a node iterator may exceed the list another thread shortened between two steps, so an overridden provided method may not compute with it unguarded (IT3).',
+                'section, otherwise it is reported with the multiset of its sections (LK4: a necessary condition of serialisability). Iterators lock once per step (IT1/IT2). No index computed under one acquisition is used under another (LK5); no try_read/try_write/try_lock whose failure becomes a data outcome (LK-TRY). The cursor of a node iterator may exceed the list another thread shortened between two steps, so an overridden provided method may not compute with it unguarded (IT3). The effect structure of each mutator (P1/P2/P2u/P3: the half at the peer is touched only on the success outcome of the half at the caller) is what stops the loser of a race from removing the winner\'s mirror entry; sequentially the re-validation is redundant, concurrently it is not.',
     decides='hold-and-wait freedom, callback-under-lock freedom, poisoning sites, number and owners of critical sections per operation',
     does_not_decide='the serialisation order of schedules (linearizability), starvation, std RwLock itself; LK4 reports non-atomic operations but cannot prove atomic ones serialisable',
     assumptions=STD + ['payload trait impls do not take gdsl locks'],
@@ -202,7 +206,7 @@ PROPS['C18'] = dict(
                 '"key absent" branch with (clone(key(node)), clone(node)) and returns false/true accordingly, nothing else mutates or replaces the map (MAP); roots/leaves/orphans filter '
                 'the members by exactly is_root/is_leaf/is_orphan, un-negated (VIEW, with the observers\' list footprints from OBS); the DOT exports write one node statement per member and '
                 'one "u -> v" statement per edge of the member\'s iterator, arguments in that order, loops run to exhaustion, each attribute callback is called once per graph / member / '
-                'edge with the right arguments and its text goes into the same statement (DOT); handles handed out are clones of the stored handle, i.e. the same allocation (ENC-d). DOT-skel: the literal text of each exporter, concatenated per loop nest in execution order, agrees between the flavours.',
+                'edge with the right arguments and its text goes into the same statement (DOT); handles handed out are clones of the stored handle, i.e. the same allocation (ENC-d). DOT-skel: the literal text of each exporter, concatenated per loop nest in execution order, agrees between the flavours. No container function (trait impls such as Drop included) reaches an adjacency-list mutator (MAP-frame).',
     decides='delegation shape, branch placement and argument provenance of every container method and DOT writer',
     does_not_decide='HashMap semantics; the literal DOT syntax beyond the presence and order of the placeholders',
     assumptions=STD,
@@ -215,7 +219,7 @@ PROPS['C12'] = dict(
                 'inside a 2-tuple (SER1); the writer loops over all members and, per member, over an edge iterator whose list footprint is exactly the OUT list, so each edge (stored as '
                 'one OUT half) is written exactly once (SER2); the writer pushes (key(u), key(v), e) and the reader connects (get(t.0), get(t.1), t.2) (SER3); both sides use push and '
                 'forward loops with no reordering call, and connect appends (P1, ENC-push), so each node\'s outgoing order survives (SER4); nodes are written (key, value) once per member and '
-                'rebuilt with insert(Node::new(t.0, t.1)) before any edge is connected (SER5).',
+                'rebuilt with insert(Node::new(t.0, t.1)) before any edge is connected (SER5). The writer and everything it calls change no edge (FRAME).',
     decides='multiplicity, orientation, order and shape agreement of writer and reader',
     does_not_decide='serde / serde_json / serde_cbor themselves and the Serialize/Deserialize impls of K, N, E',
     assumptions=STD + ['serde data formats round-trip the element types'],
@@ -240,7 +244,7 @@ PROPS['C11'] = dict(
                 'rejecting edges into visited nodes) to both the visited set and the ordering (SCC1); the second pass pops the ordering from the back, skips assigned nodes, and takes as '
                 'component the result of a transposed, filtered *reachable-set* search (Order::search_nodes) from the popped node, marking every element assigned (SCC2: a path or cycle '
                 'search in that position is a violation). The searches it composes are checked for the same flavours: true postorder (ORD1/ORD2), direction (TR0/TR1/TR2), filter '
-                'semantics and exhaustive discovery (DISC/EXH/METHOD).',
+                'semantics and exhaustive discovery (DISC/EXH/METHOD). No search, ordering or SCC function reaches an adjacency-list mutator through the call graph (FRAME): a search computes on the graph the caller holds.',
     decides='the composition schema and the properties of the composed searches',
     does_not_decide='Kosaraju\'s theorem; independence from hash order follows from it (any DFS forest works)',
     assumptions=STD,
